@@ -6,12 +6,17 @@
 (* reshuffled and how, accepted or not, any number of steps between two    *)
 (* yields, every raw weight in 0..MaxW).                                   *)
 (* Degree sequences are explored up to node symmetry (non-increasing).     *)
+(* A sampler object may serve several calls of sample(): the flag is never *)
+(* reset between them, so a call starts with any flag in Flags0 that an    *)
+(* earlier call may have left (a fresh object: "none").                    *)
 (***************************************************************************)
 EXTENDS Sampler
 CONSTANTS N,        \* nodes are the code indices 0..N-1
           NEdges,   \* hyperedges asked for / in the initial hypergraph
           MaxDeg,   \* degrees 0..MaxDeg
-          MaxW,     \* raw truncated-Poisson weights 0..MaxW (0 = numerical underflow)
+          MinW,     \* 0: a raw weight may come out as "zero" (numerical underflow); 1: truncated Poisson as defined
+          MaxW,     \* raw truncated-Poisson weights MinW..MaxW
+          Flags0,   \* subset of {"none", "yes", "no"}: matching_sequences when the call starts
           Modes     \* subset of {"init", "seqs", "partial", "model"}
 
 Node == 0..(N - 1)
@@ -32,12 +37,12 @@ Zeros == [n \in Node |-> 0]
 InitSeqs ==        \* deg_seq and dim_seq given (pad), only deg_seq given ("partial": shrink)
   /\ mode \in Modes \cap {"seqs", "partial"}
   /\ deg0 \in SortedDeg /\ sizes0 \in [1..NEdges -> 1..N]
-  /\ rem = deg0 /\ todo = sizes0 /\ chain = <<>> /\ fixed = <<>> /\ flag = "none"
+  /\ rem = deg0 /\ todo = sizes0 /\ chain = <<>> /\ fixed = <<>> /\ flag \in Flags0
   /\ pad = (mode = "seqs") /\ keys = {deg0[n] : n \in Node} /\ phase = "build"
 InitModel ==       \* nothing given: sizes 3..N from the model, one fixed dyadic hyperedge or none
   /\ mode \in Modes \cap {"model"}
   /\ deg0 \in SortedDeg /\ sizes0 \in [1..(NEdges - 1) -> 3..N]
-  /\ rem = deg0 /\ todo = sizes0 /\ chain = <<>> /\ flag = "none"
+  /\ rem = deg0 /\ todo = sizes0 /\ chain = <<>> /\ flag \in Flags0
   /\ fixed \in {<<>>} \cup {<<p>> : p \in Pairs}
   /\ pad = TRUE /\ keys = {deg0[n] : n \in Node} /\ phase = "build"
 InitHyg ==         \* initial_hyg: NEdges distinct hyperedges of size >= 2, in any listing order
@@ -45,7 +50,7 @@ InitHyg ==         \* initial_hyg: NEdges distinct hyperedges of size >= 2, in a
   /\ chain \in {c \in [1..NEdges -> Edges2] : NoCoincidence(c)}
   /\ deg0 = [n \in Node |-> ListDeg(chain, n)]
   /\ sizes0 = [i \in 1..NEdges |-> Cardinality(chain[i])]
-  /\ rem = Zeros /\ todo = <<>> /\ fixed = <<>> /\ flag = "none" /\ pad = TRUE /\ keys = {0} /\ phase = "run"
+  /\ rem = Zeros /\ todo = <<>> /\ fixed = <<>> /\ flag \in Flags0 /\ pad = TRUE /\ keys = {0} /\ phase = "run"
 Init == /\ lab = Lab /\ out = NoOut /\ clean = FALSE
         /\ (InitSeqs \/ InitModel \/ InitHyg)
 
@@ -62,7 +67,7 @@ Next ==
   \/ Finish /\ UNCHANGED <<mode, deg0, sizes0>>
   \/ \E i, j \in DOMAIN chain : i # j /\ \E p \in Splits(chain[i], chain[j]) : \E acc \in BOOLEAN :
         McmcStep(i, j, p[1], p[2], acc) /\ MoveProps(i, j, p) /\ UNCHANGED <<mode, deg0, sizes0>>
-  \/ \E wts \in [DOMAIN (chain \o fixed) -> 0..MaxW] : Yield(wts) /\ YieldProps(wts) /\ UNCHANGED <<mode, deg0, sizes0>>
+  \/ \E wts \in [DOMAIN (chain \o fixed) -> MinW..MaxW] : Yield(wts) /\ YieldProps(wts) /\ UNCHANGED <<mode, deg0, sizes0>>
   \/ Resume /\ UNCHANGED <<mode, deg0, sizes0>>
 Spec == Init /\ [][Next]_vars
 
@@ -79,6 +84,7 @@ Conditioning == mode = "init" \/ (mode = "seqs" /\ flag # "no")
 TypeOK == /\ \A n \in Node : rem[n] \in 0..MaxDeg
           /\ flag \in {"none", "yes", "no"} /\ phase \in {"build", "run"}
           /\ (phase = "run" /\ mode # "init") => flag # "none"
+          /\ (flag = "none") => "none" \in Flags0                 \* the flag is never reset
           /\ \A i \in DOMAIN chain : chain[i] \subseteq Node
 \* never a singleton (nor an empty hyperedge) in the chain, whatever was asked
 NeverSingleton == \A i \in DOMAIN chain : Cardinality(chain[i]) >= 2
@@ -95,12 +101,23 @@ SizeCountNeverExceeds ==
   /\ mode \in {"init", "seqs", "model"} => \A z \in 2..N : ListCount(chain, z) + Cnt(todo, z) = Cnt(sizes0, z)
   /\ (out.ok /\ mode \in {"init", "seqs"}) => SizeNotExceeded(Cnd, out.W)
 \* exactness whenever no two sampled hyperedges coincided (and no weight underflowed); its only
-\* black-box reading - as many hyperedges as asked for - is sound, and equivalent when all sizes >= 2
+\* black-box reading - as many hyperedges as asked for - is sound, and equivalent when all sizes >= 2.
+\* The statement itself has no exemption for an underflowing weight: with truncated-Poisson weights as
+\* defined (MinW >= 1) the list of sampled hyperedges alone decides (the chain does not move between a
+\* Yield and the Resume, so `chain \o fixed` is the list that was weighted) - whatever happened in
+\* earlier samples and whatever flag an earlier call left.
 ExactWhenNoCoincidence ==
   (out.ok /\ Conditioned(Cnd, flag) /\ TotalsEqual(Cnd)) =>
       /\ (clean /\ AllAtLeastTwo) => ExactOut(Cnd, out.W)
       /\ NothingLost(Cnd, out.W) => (clean /\ ExactOut(Cnd, out.W))
       /\ AllAtLeastTwo => (clean <=> NothingLost(Cnd, out.W))
+      /\ (MinW >= 1 /\ AllAtLeastTwo /\ NoCoincidence(chain \o fixed)) => ExactOut(Cnd, out.W)
+      /\ (AllAtLeastTwo /\ NoCoincidence(chain \o fixed) /\ ~ExactOut(Cnd, out.W)) => ~clean    \* only an underflow loses one
+\* what the validator's model clauses m_yield_size_counts / m_yield_degrees demand of the list at a yield
+ChainComplete ==
+  (phase = "run" /\ AllAtLeastTwo) =>
+      /\ mode \in {"init", "seqs"} => Len(chain) = Len(sizes0)
+      /\ (Conditioned(Cnd, flag) /\ TotalsEqual(Cnd)) => \A n \in Node : ListDeg(chain, n) = deg0[n]
 \* a matching flag with equal totals means the construction used every degree
 MatchingMeansExhausted ==
   (phase = "run" /\ mode = "seqs" /\ flag = "yes" /\ TotalsEqual(Cnd)) => \A n \in Node : rem[n] = 0
